@@ -201,16 +201,97 @@ def count_kinds(l, acc, depth=0):
                 count_kinds(x, acc, depth + 1)
 
 
+def py_source(h, spec_trace):
+    """The history as a stand-alone Python script over the real classes."""
+    cls = {1: "ex.enable_experimental_features", 0: "ex.disable_experimental_features"}
+    out = ["import guppylang_internals.experimental as ex"]
+    if any(a for a in _progs_used(h["acts"])):
+        out = ["import repo_shim, sys; sys.path.insert(0, '.')  # c33_prog.py = PROG of props/C33/impl_experimental.py", "import importlib, c33_prog"] + out
+    if h["init"] is not None:
+        out.append(f"ex.EXPERIMENTAL_FEATURES_ENABLED = {bool(h['init'])}")
+    out.append("try:")
+    nobj = [0]
+
+    def emit(l, ind):
+        pad = "    " * ind
+        if not l:
+            out.append(pad + "pass")
+        for a in l:
+            k = a[0]
+            if k == "bare":
+                out.append(f"{pad}{cls[a[1]]}()")
+            elif k == "new":
+                out.append(f"{pad}o{nobj[0]} = {cls[a[1]]}()")
+                nobj[0] += 1
+            elif k in ("with", "withobj"):
+                out.append(f"{pad}with {cls[a[1]] + '()' if k == 'with' else 'o%d' % a[1]}:")
+                emit(a[2], ind + 1)
+                out.append(f"{pad}print('flag after this with block:', ex.EXPERIMENTAL_FEATURES_ENABLED)")
+            elif k == "check":
+                if a[2] is None:
+                    out.append(f"{pad}ex.{a[1]}()   # raises iff the flag is off")
+                else:
+                    out.append(f"{pad}importlib.reload(c33_prog).{a[2]}.check()")
+            elif k == "raise":
+                out.append(f"{pad}raise RuntimeError('injected')")
+            else:
+                out.append(f"{pad}try:")
+                emit(a[1], ind + 1)
+                out.append(f"{pad}except Exception: pass")
+
+    emit(h["acts"], 1)
+    out.append("except Exception as e: print('history left by', type(e).__name__)")
+    out.append(f"print('final flag:', ex.EXPERIMENTAL_FEATURES_ENABLED, ' # the property requires {bool(spec_trace[-1][1])}')")
+    return "\n".join(out)
+
+
+def _progs_used(l):
+    for a in l:
+        if a[0] == "check" and a[2] is not None:
+            yield a[2]
+        for x in a[1:]:
+            if isinstance(x, list):
+                yield from _progs_used(x)
+
+
+def probes(gates):
+    """Exhaustive small histories (run before the random ones; smallest failing input first)."""
+    out = []
+    g0 = gates[0]
+    for init in (0, 1, None):
+        for c in (0, 1):
+            out += [[["with", c, []]], [["try", [["with", c, [["raise"]]]]]], [["bare", c], ["try", [["check", g0, None]]]],
+                    [["with", c, [["check", g0, None]]]], [["new", c], ["bare", 1 - c], ["withobj", 0, []]],
+                    [["with", c, [["bare", 1 - c]]]]]
+            for c2 in (0, 1):
+                out += [[["with", c, [["with", c2, []]]]], [["with", c, [["try", [["with", c2, [["raise"]]]]]]]],
+                        [["try", [["with", c, [["with", c2, [["raise"]]]]]]]], [["with", c, [["with", c2, [["try", [["check", g0, None]]]]]]]]]
+        out += [[["try", [["check", g, None]]]] for g in gates]
+        yield from ({"init": init, "mode": "gate", "acts": a} for a in out)
+        out = []
+
+
 def replay_text(h):
     return ("cd <scratch>; PYTHONPATH=/verif/tools:<repo>/guppylang/src:<repo>/guppylang-internals/src /venv/bin/python "
             "/verif/props/C33/impl_experimental.py <<< '" + json.dumps({"histories": [h], "scratch": ".", "static_sites": []}) + "'")
 
 
 def run(ctx):
-    sites = generate(ctx)
-    info = ctx.coq_props()
-    r = vlib.rng(ctx.seed, "C33")
     import tr_experimental as t
+    try:
+        sites = generate(ctx)
+        info = ctx.coq_props()
+    except vlib.TranslatorError as e:
+        # fail closed: no theorem is claimed for this tree; still run the histories and the
+        # program table on the real code to look for a concrete failing input
+        sites = []
+        info = {"ok": False, "failed": f"translator failed closed: {e}", "log": f"Error: translator: {e}",
+                "obligations": 1, "discharged": 0, "theorems": [], "axioms": []}
+        try:
+            sites = _scan(ctx)[0]
+        except vlib.TranslatorError:
+            pass
+    r = vlib.rng(ctx.seed, "C33")
     gates = t.gate_names(ctx.int_src(SRC))
     gidx = {g: i for i, g in enumerate(gates)}
     # ---- histories: corpus first, then fresh
@@ -219,8 +300,9 @@ def run(ctx):
         for h in json.loads(p.read_text()):
             if all(a in gates for a in _gates_used(h["acts"])):
                 hs.append(h)
+    hs += list(probes(gates))
     n_corpus = len(hs)
-    n_gate, n_prog = (400, 60) if ctx.quick else (6000, 600)
+    n_gate, n_prog = (400, 60) if ctx.quick else (12000, 1500)
     for i in range(n_gate + n_prog):
         mode = "gate" if i < n_gate else "prog"
         budget = [r.choice([6, 12, 25])]
@@ -234,7 +316,7 @@ def run(ctx):
     fresh = impl["fresh_flag"]
     # ---- model side (generated definitions evaluated in Coq)
     model = None
-    if (vlib.COQ / "C33" / "Model.vo").exists() and (info["ok"] or _model_built()):
+    if not str(info["failed"] or "").startswith("translator") and (vlib.COQ / "C33" / "Model.vo").exists() and (info["ok"] or _model_built()):
         try:
             chunks = [hs[i:i + 400] for i in range(0, len(hs), 400)]
             outs = ctx.coq_eval_many({f"cases{i}": coq_cases(c) for i, c in enumerate(chunks)})
@@ -261,14 +343,16 @@ def run(ctx):
                 ctx.report(f"model-mismatch:{key}", "correspondence", "Coq model (generated definitions) vs real classes",
                            {"history": h["acts"], "init": h["init"], "impl_trace": it, "model_trace": model[j],
                             "replay": replay_text({k: h[k] for k in ("init", "acts", "mode")})})
-    for h, it, st in spec_bad[:3]:
+    spec_bad.sort(key=lambda x: len(json.dumps(x[0]["acts"])))
+    for h, it, st in spec_bad[:2]:
         first = next((i for i, (a, b) in enumerate(zip(it, st)) if a != b), min(len(it), len(st)))
         ctx.report("spec:" + json.dumps(h["acts"]) + str(h["init"]), "counterexample",
                    "history violates the property on the real classes" + ("" if info["ok"] else f" (and Props.v no longer checks: {info['failed']})"),
                    {"history": h["acts"], "init_flag": "fresh process" if h["init"] is None else h["init"], "mode": h["mode"],
                     "expected_trace(property)": st, "observed_trace(/repo)": it, "first_difference_at_event": first,
                     "encoding": "[1,c,f] ctor; [2,c,f] with-body start; [3,c,before,after,exc] with exit; [4,gate,accepted,flag] check; [5] raise; [6,caught] try; [8,c,f] with-kept-object body; [9,flag,raised] end",
-                    "replay": replay_text({k: h[k] for k in ("init", "acts", "mode")})})
+                    "replay_script": py_source(h, st),
+                    "replay": "save replay_script as r.py; PYTHONPATH=/verif/tools:<repo>/guppylang/src:<repo>/guppylang-internals/src /venv/bin/python r.py   (or: " + replay_text({k: h[k] for k in ("init", "acts", "mode")}) + ")"})
     # ---- accept/reject table, error classes, aliases
     table_bad = 0
     for row in impl["table"]:
@@ -324,7 +408,7 @@ def run(ctx):
         evaluations=len(hs) + 2 * len(impl["table"]), distinct_nontrivial=len(nontrivial),
         rule="histories: seeded random trees (depth<=4, budget 6/12/25 actions) over bare/with/new/withobj/check/raise/try with initial flag fresh/off/on; 'gate' mode calls the gate function, 'prog' mode runs check() of a program using the feature; non-trivial = distinct history whose real trace contains at least one with-exit and one check",
         traces_validated_against_impl=len(hs) if model is not None else 0,
-        histories={"corpus": n_corpus, "gate_mode": n_gate, "prog_mode": n_prog}, action_histogram=kinds,
+        histories={"corpus_and_probes": n_corpus, "gate_mode": n_gate, "prog_mode": n_prog}, action_histogram=kinds,
         exceptional_with_exits=sum(1 for x in impl["histories"] for e in x["trace"] if e[0] == 3 and e[4] == 1),
         normal_with_exits=sum(1 for x in impl["histories"] for e in x["trace"] if e[0] == 3 and e[4] == 0),
         checks_rejected=sum(1 for x in impl["histories"] for e in x["trace"] if e[0] == 4 and e[2] == 0),
